@@ -775,3 +775,11 @@ mod test {
         assert!(curve1.point_at_pos(t2).x() > 81.78);
     }
 }
+
+/// (verification hook, only with `--cfg flo_curves_verif`) read access to the bounds and coefficients of a fat line
+#[cfg(flo_curves_verif)]
+impl FatLine {
+    pub fn verif_d_min(&self) -> f64 { self.d_min }
+    pub fn verif_d_max(&self) -> f64 { self.d_max }
+    pub fn verif_coeff(&self) -> (f64, f64, f64) { self.coeff }
+}
